@@ -19,6 +19,9 @@ class World:
     calls = 0
     cap = 300
     log = None
+    comps = None
+    links = None
+    early = None  # (component, output, consumer, input) seen CONNECTED while that consumer's metadata exchange was outstanding
 
 
 def snapshot(conn):
@@ -108,6 +111,13 @@ class CNode(fm.TimeComponent):
         self.try_connect(st, exchange_infos=ex_infos, push_infos=push_infos, push_data=push)
         after = snapshot(conn)
         self.status_log.append((self.status.name, before != after, complete(after)))
+        if self.status == CS.CONNECTED and World.links is not None:
+            # independent of the connector's own bookkeeping: every consumer of every output must have exchanged its metadata
+            for l in World.links:
+                if l[0][0] == self.name:
+                    cons = World.comps[l[1][0]]
+                    if cons.connector is None or cons.connector.in_infos.get(l[1][1]) is None:
+                        World.early.append((self.name, l[0][1], l[1][0], l[1][1]))
 
     def _validate(self):
         pass
@@ -184,6 +194,7 @@ def run_connect(specs, links, order, link_order, cache=True):
     World.calls = 0
     CNode.cache = cache
     comps = {s[0]: CNode(*s) for s in specs}
+    World.comps, World.links, World.early = comps, links, []
     c = compose([comps[n] for n in order])
     trunks = {}
     for li in link_order:
